@@ -174,17 +174,18 @@ macro_rules! impl_conversion_to_float {
                 } else if value.0.denominator.is_power_of_two() {
                     // conversion is exact only if the denominator is a power of two
                     let num_bits = value.0.numerator.bit_len();
+                    let num_zeros = value.0.numerator.trailing_zeros().unwrap();
                     let den_bits = value.0.denominator.trailing_zeros().unwrap();
                     let top_bit = num_bits as isize - den_bits as isize;
                     if top_bit > $ub {
                         // see to_f32::encode for explanation of the bounds
                         Err(ConversionError::OutOfBounds)
-                    } else if top_bit < $lb {
+                    } else if top_bit < $lb || num_bits - num_zeros > <$t>::MANTISSA_DIGITS as usize {
                         Err(ConversionError::LossOfPrecision)
                     } else {
                         match <$t>::encode(
-                            value.0.numerator.try_into().unwrap(),
-                            -(den_bits as i16),
+                            (value.0.numerator >> num_zeros).try_into().unwrap(),
+                            num_zeros as i16 - den_bits as i16,
                         ) {
                             Exact(v) => Ok(v),
                             Inexact(v, _) => {
